@@ -17,6 +17,13 @@ def _reexec():
         env = dict(os.environ)
         env["PYTHONHASHSEED"] = "0"
         env["_VERIF_REEXEC"] = "1"
+        # worker processes are started through a fork server (no fork of a threaded parent): they find the
+        # tree under test and the harness through PYTHONPATH
+        repo = env.get("VERIF_REPO", "/repo")
+        deps = os.path.join(HERE, ".deps")
+        extra = [repo, HERE] + ([deps] if os.path.isdir(deps) else [])
+        env["PYTHONPATH"] = os.pathsep.join(extra + ([env["PYTHONPATH"]] if env.get("PYTHONPATH") else []))
+        env.setdefault("PYTHONWARNINGS", "ignore::UserWarning:multiprocessing.resource_tracker")
         env.setdefault("OMP_NUM_THREADS", "1")
         env.setdefault("OPENBLAS_NUM_THREADS", "1")
         env.setdefault("MKL_NUM_THREADS", "1")
@@ -64,4 +71,8 @@ def main():
 
 
 if __name__ == "__main__":
-    sys.exit(main())
+    rc = main()
+    sys.stdout.flush()
+    sys.stderr.flush()
+    # skip interpreter-exit joins of worker pools / helper threads: everything is written at this point
+    os._exit(rc if isinstance(rc, int) else 0)
